@@ -209,7 +209,9 @@ def families(prop, tier):
                                   outcomes=['ok', 'T1'])))
         # ... an attempt that ends with an exception nobody foresaw, while the only store slot is held by a fetch that waits for
         # the relay slot the attempt holds
-        fams.append(dict(name='poolsx-dict', mode='dfs', depth=7 if q else 9, budget=400 if q else 20000,
+        xplans = [['enq', 'enq', 'relay:T1', 'relay:X'], ['enq', 'enq', 'relay:X', 'relay:T1', 'relay:X'], ['enq', 'enq', 'relay:T1', 'relay:T1', 'relay:X'],
+                  ['enq', 'relay:T1', 'enq', 'relay:X', 'relay:X'], ['enq', 'enq', 'relay:X', 'relay:X'], ['enq', 'enq', 'relay:T1', 'relay:X', 'relay:X', 'relay:T1']]
+        fams.append(dict(name='poolsx-dict', mode='plans', plans=xplans,
                          cfg=dict(backend='dict', gate_store=False, nmsgs=2, nrcpt=1, backoff=[0, 0, None], store_pool=1, relay_pool=1,
                                   outcomes=['T1', 'X'])))
         # a backlog found at start-up, listed latest-due first by a listing that yields between entries, with one store slot:
